@@ -9,7 +9,8 @@ disconnects and reconnects in between."""
 from sim import sio
 from sim.world import make_world
 from sim.choices import derive
-from sim.util import typed_eq, wire_norm, shape_call_result, gen_value
+from sim.util import (typed_eq, wire_norm, shape_call_result, gen_value,
+                      contains_bytes)
 from .common import V, trepr, REAL_SERVER, STUBS
 from .scene import Scene
 
@@ -39,7 +40,10 @@ def gen(rng, tier):
     nss = NSS[:rng.randrange(1, 3)]
     cfg = {'mode': mode, 'nss': nss, 'lat': rng.randrange(len(LATS)),
            'coro_cb': rng.random() < 0.5,
-           'cb_raise': rng.choice([0, 0, 2, 4])}    # out of 8
+           'cb_raise': rng.choice([0, 0, 2, 4]),    # out of 8
+           # coroutine callbacks that suspend, with the same ACK repeated
+           # right behind the first one
+           'cb_pause': rng.random() < 0.5}
     ops = []
     for p in range(npeers):
         ops.append(['open', p])
@@ -136,8 +140,12 @@ def _run(case, cfg, w):
                 raise RuntimeError('injected callback failure')
         if coroutine:
             async def cb(*args):
+                import asyncio
                 ev = w.rec.add('cb', tag=tag, args=args)
                 cb_log.append((tag, list(args), ev['seq']))
+                if cfg.get('cb_pause') and not cfg.get('malformed_acks'):
+                    await asyncio.sleep(w.choices.pick(
+                        'app', (0.0, 0.001, 0.003, 0.02), 'cbpause'))
                 maybe_raise()
         else:
             def cb(*args):
@@ -256,6 +264,15 @@ def _run(case, cfg, w):
             n_cb = len(cb_log)
             n_err = len(w.rec.errors)
             sc.peers[p].send_pkt(sio.ACK, ns, id_, payload)
+            if match and cfg.get('cb_pause') and \
+                    not cfg.get('malformed_acks') and \
+                    not contains_bytes(payload) and \
+                    w.choices.chance('app', 1, 3, 'dup_in_flight'):
+                # the same ACK again, on a second channel (an HTTP POST to
+                # the session: engine.io handles it in a task of its own,
+                # concurrently with the first one's suspended callback)
+                sc.peers[p].post_pkts([(sio.ACK, ns, id_, payload)])
+                w.rec.count('fault.duplicate_ack_in_flight')
             w.settle(horizon=0.05)
             fired = cb_log[n_cb:]
             if match and payload is None:
